@@ -23,7 +23,8 @@ excluded:
   `np.linalg.norm` of it is positive under `NormContract`; for the zero-site steps the bond matrix `C` (`Cᵀ`) has the norm
   of the centre tensor because `A = Q C` with `Q` an isometry; the norm-one property is carried along the whole sweep by
   the unitarity of the local steps (`local_step_unitary`, `bond_step_unitary`);
-  `np.zeros(numiter-1)` with `numiter = 0` (ValueError) — hypothesis `1 ≤ numiter` (necessary: `C14.lanczos_raises`);
+  `np.zeros(numiter-1)` with the capped count `min(numiter, len v) = 0` (ValueError; F11) — hypothesis `1 ≤ numiter`
+  (necessary: `C14.lanczos_zero_raises`) and a non-empty local vector, which positive norm gives under `NormContract`;
 * the index / shape errors of `expm_krylov` (`u_hess[0]`, products `V @ …`) — the shape clauses of the `eigh_tridiagonal`
   contract (`C15.EighAt`, field of `SweepCtx`);
 * `qr(…)`: its three assertions                  — the matricised (evolved) centre tensor is block sparse w.r.t. the
